@@ -10,10 +10,17 @@ joined at a point that the run thread determines under the socket lock.
 
   * UI bursts: m = 3..5 connection-less sockets with one datagram each, pending at the same time, whose sizes sum
     to sendMIU - 4m + delta (delta sweeps -2..+4 with the grid index): the aggregate lands on the boundary
-  * two data link connections (each side connects to the named service of the other, so each side also *accepts* a
+  * two data link connections (each side connects to the service of the other, so each side also *accepts* a
     connection the peer opened); CONNECT and CC announce a connection MIU below, at and above the link MIU of the
-    announcing side's PAX; all four ends send I PDUs as large as they believe they may, with MSG_DONTWAIT, while
-    the peer's acknowledgements are pending
+    announcing side's PAX (128 = no MIUX TLV) and a receive window 1..4 (1 = no RW TLV) that differs between the
+    four ends; all four ends send I PDUs as large as they believe they may, with MSG_DONTWAIT, while the peer's
+    acknowledgements are pending
+  * the way the connection is addressed rotates with the grid index, independently for the two openers (conn_mode):
+    "sap" (connect(<number>)), "name" (connect(<service name>): CONNECT to SAP 1 with SN TLV, resolved by the accepting
+    LLC) and "resolved" (resolve(<service name>) first, then connect(<the number it returned>))
+  * every end is asked what it holds (End): SO_SNDMIU, a first message of exactly the receiver's limit (it must be
+    accepted), one of one octet more (it must be refused), and how many send() calls the fresh connection takes
+    before EWOULDBLOCK (= the receive window the other end announced)
   * service name lookups: many names at once (SNL batches in both directions)
   * every 8th configuration idles for 14 more iterations (the run loops' idle pauses against LTO / RWT)
   * the target side answers twice at 0.9 x the RWT it announced (when its announced LTO allows that)
@@ -32,6 +39,7 @@ PTYPE = {0: "SYMM", 1: "PAX", 2: "AGF", 3: "UI", 4: "CONNECT", 5: "DISC", 6: "CC
          10: "DPS", 12: "I", 13: "RR", 14: "RNR"}
 UI_SAP = 33                 # connection-less receiver on both sides
 SVC = "urn:nfc:sn:verif"    # connection-oriented service of the target side
+NO_TLV = 65535             # (P2pNeg!NoTlv)
 NAMES = ["urn:nfc:sn:verif", "urn:nfc:sn:snep", "urn:nfc:sn:a", "urn:nfc:sn:bb", "urn:nfc:sn:ccc", "urn:nfc:sn:dddd",
          "urn:nfc:xsn:verif.example:e", "urn:nfc:sn:f", "urn:nfc:sn:gg", "urn:nfc:sn:handover", "urn:nfc:sn:h",
          "urn:nfc:sn:ii"]
@@ -50,6 +58,21 @@ def conn_announce(x, k, side):
     def announce(mode):
         return (min(miu, (128, 131, 200, 1000)[k % 4]), miu, min(2175, miu + 352))[mode % 3]
     return announce(k // 5 + shift), announce(k // 5 + shift + 1)
+
+
+def conn_rw(k, side):
+    """(receive window of side's client socket = RW in its CONNECT, of its listening socket = RW in its CC): 1..4,
+    different for the four ends of the two connections"""
+    shift = 0 if side == "i" else 2
+    return 1 + (k // 2 + k // 11 + shift) % 4, 1 + (k // 2 + k // 11 + shift + 1) % 4
+
+
+MODES = ("sap", "name", "resolved")
+
+
+def conn_mode(k, side):
+    """how side addresses the connection it opens (independent of the MIU / RW rotations and of the link MIUs)"""
+    return MODES[(k // 11 + k // 36 + (0 if side == "i" else 1)) % 3]
 
 
 class App(object):
@@ -73,7 +96,12 @@ class App(object):
         self.i_sent, self.i_rcvd = {"out": [], "in": []}, {"out": [], "in": []}
         self.quota = {"out": 5, "in": 5}
         self.over = {}               # which -> (n, accepted, peer sap): one message one octet beyond the peer's limit
+        self.at = {}                 # which -> (n, accepted, peer sap): one message of exactly the peer's limit
+        self.end = {}                # which -> dict(sndmiu, burst, blocked, sap): what the fresh connection end holds
+        self.mode = conn_mode(k, side)
+        self.svc_sap = None          # "resolved": what resolve() returned
         self.errors = []
+        self.dead = set()            # connections whose recv() failed
 
     # -- callbacks of connect() ---------------------------------------------------------------------
     def on_startup(self, llc):
@@ -87,7 +115,7 @@ class App(object):
         self.ui_rx.setsockopt(nfc.llcp.SO_RCVBUF, 8)
         self.ui_rx.bind(UI_SAP)
         miu = x["miuI" if s == "i" else "miuT"]
-        self.conn_win = 1 + self.k % 3
+        self.cli_rw, self.srv_rw = conn_rw(self.k, s)
         # the connection MIU this side announces in its CONNECT (client socket) and in its CC (listening socket):
         # below, at and above the link MIU of its own PAX.  "Above" is what a foreign peer may do; it is set on the
         # transmission control object because LogicalLinkController.setsockopt clamps SO_RCVMIU to the link MIU.
@@ -101,9 +129,10 @@ class App(object):
         self.peer_limit = {"out": min(psrv, plink), "in": min(pcli, plink)}
         self.srv = nfc.llcp.Socket(llc, nfc.llcp.DATA_LINK_CONNECTION)
         self.srv._tco.setsockopt(nfc.llcp.SO_RCVMIU, self.srv_miu)
-        self.srv.setsockopt(nfc.llcp.SO_RCVBUF, self.conn_win)
+        self.srv.setsockopt(nfc.llcp.SO_RCVBUF, self.srv_rw)
         self.srv.bind(SVC)
         self.srv.listen(2)
+        self.shared["svc_" + s] = self.srv.getsockname()     # (told to the peer out of band for connect-by-SAP)
         return llc
 
     @staticmethod
@@ -117,30 +146,46 @@ class App(object):
     def on_connect(self, llc):
         self.active = True
         self.shared["mark_" + self.side] = len(self.air.log)
-        if True:            # both sides open a connection to the peer's service
-            self.cli = nfc.llcp.Socket(llc, nfc.llcp.DATA_LINK_CONNECTION)
-            self.cli._tco.setsockopt(nfc.llcp.SO_RCVMIU, self.cli_miu)
-            self.cli.setsockopt(nfc.llcp.SO_RCVBUF, self.conn_win)
-            self.cli.bind()
-            tco = self.cli._tco
-
-            def connect():
-                try:
-                    self.cli.connect(SVC)
-                except nfc.llcp.Error as e:
-                    self.errors.append("connect: %r" % (e,))
-            self.helper = threading.Thread(target=connect, daemon=True)
-            self.helper.start()
-            self._wait(lambda: len(tco.send_queue) > 0 or not self.helper.is_alive(), "CONNECT not queued")
-        # service name lookups, all pending before the run loop starts
-        n = (10 if self.side == "i" else 6) if self.k % 3 == 0 else 2
+        # both sides open a connection to the peer's service
+        self.cli = nfc.llcp.Socket(llc, nfc.llcp.DATA_LINK_CONNECTION)
+        self.cli._tco.setsockopt(nfc.llcp.SO_RCVMIU, self.cli_miu)
+        self.cli.setsockopt(nfc.llcp.SO_RCVBUF, self.cli_rw)
+        self.cli.bind()
         sdp = llc.sap[1]
-        for name in NAMES[:n]:
+        n0 = 0
+        if self.mode == "name":
+            self.open_connection(SVC)
+        elif self.mode == "sap":
+            self.open_connection(self.shared["svc_" + ("t" if self.side == "i" else "i")])
+        else:
+            # the lookup of the service comes first (its SDREQ is the first in the queue); the CONNECT follows in the
+            # run loop iteration that sees the answer (step)
+            th = threading.Thread(target=llc.resolve, args=(SVC,), daemon=True)
+            th.start()
+            self.resolvers.append(th)
+            n0 = 1
+            self._wait(lambda: len(sdp.sdreq) + len(sdp.snl) >= n0, "SDREQ not queued")
+        # service name lookups, all pending before the run loop starts (the service itself is looked up only when
+        # the connection is to be opened after an explicit resolve)
+        n = (10 if self.side == "i" else 6) if self.k % 3 == 0 else 2
+        for name in NAMES[1:n + 1]:
             th = threading.Thread(target=llc.resolve, args=(name,), daemon=True)
             th.start()
             self.resolvers.append(th)
-        self._wait(lambda: len(sdp.sdreq) + len(sdp.snl) >= n, "SDREQs not queued")
+        self._wait(lambda: len(sdp.sdreq) + len(sdp.snl) >= n + n0, "SDREQs not queued")
         return True
+
+    def open_connection(self, dest):
+        tco = self.cli._tco
+
+        def connect():
+            try:
+                self.cli.connect(dest)
+            except nfc.llcp.Error as e:
+                self.errors.append("connect: %r" % (e,))
+        self.helper = threading.Thread(target=connect, daemon=True)
+        self.helper.start()
+        self._wait(lambda: len(tco.send_queue) > 0 or not self.helper.is_alive(), "CONNECT not queued")
 
     def on_release(self, llc):
         return True
@@ -200,6 +245,15 @@ class App(object):
             self.dlc["in"] = self.accepted   # one iteration after accept(): the CC is on its way first (*)
         if self.accepted is None and len(self.srv._tco.recv_queue) > 0:
             self.accepted = self.srv.accept()
+        if self.mode == "resolved" and self.svc_sap is None:
+            sdp = self.llc.sap[1]
+            with self.llc.lock:
+                known = sdp.snl is not None and SVC.encode("latin") in sdp.snl
+            if known:
+                self.svc_sap = self.llc.resolve(SVC)         # (answered from what the lookup brought, does not block)
+                if not self.svc_sap:
+                    raise RuntimeError("traffic harness: resolve(%r) = %r" % (SVC, self.svc_sap))
+                self.open_connection(self.svc_sap)
         if self.dlc["out"] is None and self.helper is not None:
             tco = self.cli._tco
             with tco.lock:          # either the helper has not seen the answer yet or it is through
@@ -215,31 +269,57 @@ class App(object):
             if self.dlc[which] is None:
                 continue
             sock, d = self.dlc[which], self.dlc[which]._tco
-            while len(d.recv_queue) > 0 and d.state.ESTABLISHED:
-                self.i_rcvd[which].append(bytes(sock.recv()))
+            while len(d.recv_queue) > 0 and d.state.ESTABLISHED and which not in self.dead:
+                try:
+                    self.i_rcvd[which].append(bytes(sock.recv()))
+                except RuntimeError as e:
+                    # the receiving end found its own book-keeping violated (e.g. more I PDUs than its window):
+                    # reported as a failed application call, the connection is not read any more
+                    self.errors.append("recv: %r" % (e,))
+                    self.dead.add(which)
+            fresh = which not in self.end and d.state.ESTABLISHED
+            burst, blocked = 0, False
+            if fresh:
+                # what the end says it may send in one I PDU, before anything was sent on the connection
+                self.end[which] = dict(sndmiu=sock.getsockopt(nfc.llcp.SO_SNDMIU), sap=d.peer)
             if which not in self.over and d.state.ESTABLISHED:
                 # first one message that is one octet more than the receiver allows: send() has to refuse it
                 n = self.peer_limit[which] + 1
                 try:
                     sock.send(pattern(90, n), nfc.llcp.MSG_DONTWAIT)
                     self.over[which] = (n, True, d.peer)
+                    burst += 1
                 except nfc.llcp.Error as e:
                     if e.errno == nfc.llcp.errno.EMSGSIZE:
                         self.over[which] = (n, False, d.peer)
                     elif e.errno != nfc.llcp.errno.EWOULDBLOCK:
                         raise
             while self.quota[which] > 0 and d.state.ESTABLISHED:
-                # as much as this side believes it may send on the connection
                 q = self.quota[which]
-                n = d.send_miu if q % 3 else max(1, d.send_miu - 1 - k % 5)
+                if which not in self.at:
+                    # then one message of exactly what the receiver allows (its connection MIU, at most its link
+                    # MIU): send() has to take it
+                    n = self.peer_limit[which]
+                else:
+                    # then as much as this side believes it may send on the connection
+                    n = d.send_miu if q % 3 else max(1, d.send_miu - 1 - k % 5)
                 try:
                     sock.send(pattern(60 + q + (0 if which == "in" else 10), n), nfc.llcp.MSG_DONTWAIT)
                 except nfc.llcp.Error as e:
                     if e.errno == nfc.llcp.errno.EWOULDBLOCK:
+                        blocked = True
                         break
+                    if e.errno == nfc.llcp.errno.EMSGSIZE and which not in self.at:
+                        self.at[which] = (n, False, d.peer)
+                        continue
                     raise
+                self.at.setdefault(which, (n, True, d.peer))
+                burst += 1
                 self.i_sent[which].append((60 + q + (0 if which == "in" else 10), n))
                 self.quota[which] -= 1
+            if fresh:
+                # how many messages the fresh connection took at once (no acknowledgement can have arrived yet)
+                self.end[which].update(burst=burst, blocked=blocked)
         if self.side == "i" and j >= self.rounds + (14 if self.k % 8 == 3 else 0):
             self.done = True                 # (every 8th configuration: an idle tail of symmetry PDUs)
 
@@ -273,19 +353,38 @@ def llc_desc(b, nested=True):
         return dict(t="SHORT", dsap=0, ssap=0, info=len(b), miux=0, inner=[])
     dsap, pt, ssap = b[0] >> 2, ((b[0] & 3) << 2) | (b[1] >> 6), b[1] & 63
     t = PTYPE.get(pt, "T%d" % pt)
-    out = dict(t=t, dsap=dsap, ssap=ssap, info=len(b) - 2, miux=0, inner=[])
+    # miux: the MIU a CONNECT / CC announces (128 without TLV); mtlv / rw: the MIUX / RW TLV values (NO_TLV: absent);
+    # sn: a CONNECT with SN TLV; svc: an SNL that asks for the SAP of SVC; ns / nr: sequence numbers (-1: none)
+    out = dict(t=t, dsap=dsap, ssap=ssap, info=len(b) - 2, miux=0, mtlv=NO_TLV, rw=NO_TLV, sn=False, svc=False,
+               ns=-1, nr=-1, inner=[])
     if t == "I":
         out["info"] = len(b) - 3
+        if len(b) >= 3:
+            out["ns"], out["nr"] = b[2] >> 4, b[2] & 15
     elif t in ("RR", "RNR"):
         out["info"] = 0
+        if len(b) >= 3:
+            out["nr"] = b[2] & 15
     elif t in ("CONNECT", "CC"):
         miu, p = 128, 2
         while p + 2 <= len(b):
             ty, ln = b[p], b[p + 1]
             if ty == 2 and ln == 2 and p + 4 <= len(b):
-                miu = 128 + (((b[p + 2] << 8) | b[p + 3]) & 0x7FF)
+                out["mtlv"] = ((b[p + 2] << 8) | b[p + 3]) & 0x7FF
+                miu = 128 + out["mtlv"]
+            elif ty == 5 and ln == 1 and p + 3 <= len(b):
+                out["rw"] = b[p + 2] & 15
+            elif ty == 6 and t == "CONNECT":
+                out["sn"] = True
             p += 2 + ln
         out["miux"] = miu
+    elif t == "SNL":
+        p = 2
+        while p + 2 <= len(b):
+            ty, ln = b[p], b[p + 1]
+            if ty == 8 and ln >= 1 and bytes(b[p + 3:p + 2 + ln]) == SVC.encode("latin"):
+                out["svc"] = True
+            p += 2 + ln
     elif t == "AGF" and nested:
         p = 2
         while p + 2 <= len(b):
@@ -295,6 +394,21 @@ def llc_desc(b, nested=True):
             out["inner"].append(inner)
             p += 2 + ln
     return out
+
+
+def max_in_flight(descs):
+    """descs: [(dir, descriptor)] in the order of the air -> {(dir, dsap, ssap): the largest number of I PDUs of that
+    connection direction that were sent and not yet acknowledged by an N(R) of the opposite direction}"""
+    nxt, ack, most = {}, {}, {}
+    for d, e in descs:
+        for p in (e["inner"] if e["t"] == "AGF" else [e]):
+            if p["nr"] >= 0:
+                ack[("TI" if d == "IT" else "IT", p["ssap"], p["dsap"])] = p["nr"]
+            if p["ns"] >= 0:
+                key = (d, p["dsap"], p["ssap"])
+                nxt[key] = (p["ns"] + 1) % 16
+                most[key] = max(most.get(key, 0), (nxt[key] - ack.get(key, 0)) % 16)
+    return most
 
 
 def llc_frames(log, start, stop):
